@@ -958,7 +958,16 @@ class AEval:
                     while y.k == 'cast':
                         y = y.a[2]
                     at.append(env.get('\x00ty:' + y.a[0]) if y.k == 'var' else None)
-                callee = self.module.select(name, len(args_e), at, raw=getattr(e, 'raw', None))
+                callee = None
+                if recv.cls and '::' in name and name.rsplit('::', 1)[0] != recv.cls:
+                    # a call through a pointer to the base class: the member of the object's own class, if it overrides it
+                    dyn = '%s::%s' % (recv.cls, name.rsplit('::', 1)[1])
+                    if self.module.overloads.get('%s/%d' % (dyn, len(args_e))):
+                        callee = self.module.select(dyn, len(args_e), at)
+                        if callee is not None:
+                            name = dyn
+                if callee is None:
+                    callee = self.module.select(name, len(args_e), at, raw=getattr(e, 'raw', None))
                 if callee is not None:
                     args = [self.ref_of(x, env, depth) if i in callee.byref else self.ev(x, env, depth) for i, x in enumerate(args_e)]
                     return self.call_function(name, args, depth + 1, recv=recv, chosen=callee)
